@@ -57,9 +57,20 @@ def plan(tier):
     # invalid settings are rejected
     for key, val in (("max_tries", "-1"), ("max_tries", "abc"), ("max_tries", "1.5"), ("rerun_status", "pass bogus"), ("stop_status", "failed"),
                      ("rerun_status", "PASS")):
-        s = S.T1("net1", shared=S.VM1_CHAIN, params={"max_tries": 2, key: val}, D=D1, O=("PASS", "FAIL")).variant(f"/invalid {key}={val}")
-        s.invalid_setting = f"{key}={val}"
-        p.append((s, 1, 0.3))
+        # ... whatever the other (valid) retry settings are and whatever the outcomes
+        for comp in ({}, {"rerun_status": "fail"}, {"stop_status": "pass"}, {"rerun_status": "fail", "stop_status": "pass"}, {"rerun_status": "pass"}):
+            if key in comp:
+                continue
+            pr = {"max_tries": 2}
+            pr.update(comp)
+            pr[key] = val
+            tag = ",".join(f"{k_}={v_}" for k_, v_ in comp.items())
+            s = S.T1("net1", shared=S.VM1_CHAIN, params=pr, D=D1, O=("PASS", "FAIL")).variant(f"/invalid {key}={val}" + (f" with {tag}" if tag else ""))
+            s.invalid_setting = f"{key}={val}"
+            p.append((s, 1, 0.3))
+        s2 = S.T2("net1 net2", shared=S.VM1_CHAIN[:2], params={"max_tries": 2, key: val}, D=D1, O=("PASS", "FAIL")).variant(f"/2workers,invalid {key}={val}")
+        s2.invalid_setting = f"{key}={val}"
+        p.append((s2, 0 if q else 1, 0.3))
     # P1: replay of a previous job: all assignments of previous results to the three leaves x state present/missing
     base = S.T2("net1")
     leaves = ["tutorial1", "tutorial2.files", "tutorial2.names"]
